@@ -31,6 +31,7 @@ def run(ctx, res):
     for _ in range(ctx.budget(400, 8000)):
         srcs.append(gen_lua.gen_program(rng)[0])
     srcs += [sp[0] for sp in gen_lua.word_programs(rng)]
+    srcs += gen_lua.lookalike_programs()
     alpha = [b'\\', b'0', b'1', b'4', b'x', b'a', b'"', b"'", b'\n', b'\x00', b'\x0e', b'\x80']
     for ln in range(ctx.budget(3, 4) + 1):
         for tup in itertools.product(alpha, repeat=ln):
